@@ -12,6 +12,8 @@ import (
 
 	"verif/harness/gen"
 	"verif/harness/harn"
+	"verif/harness/prim"
+	"verif/harness/sqlx"
 )
 
 type bindSpec struct {
@@ -288,6 +290,92 @@ func init() {
 		}
 		return msg
 	})
+}
+
+type signedParamCase struct {
+	Snippet string `json:"snippet"`       // SQL text of the parameter
+	PQL     string `json:"pql,omitempty"` // the same value written in PQL (default: the snippet)
+	Use     string `json:"use"`           // an expression over the name p
+}
+
+// checkSignedParam: a parameter whose snippet starts with a sign (or is any
+// other compound text) acts as one operand: the SQL expression has the value
+// of the same expression with the snippet written in parentheses.
+func checkSignedParam(c signedParamCase) string {
+	src := "T | project out = " + c.Use
+	r := safeCompile(src, &pql.CompileOptions{Parameters: map[string]string{"p": c.Snippet}})
+	if r.Hung || r.Panic != "" {
+		return "Compile hangs or panics"
+	}
+	if r.Err != nil {
+		return fmt.Sprintf("does not compile: %v", r.Err)
+	}
+	pqlText := c.PQL
+	if pqlText == "" {
+		pqlText = c.Snippet
+	}
+	want := safeCompile("T | project out = "+strings.ReplaceAll(c.Use, "p", "("+pqlText+")"), nil)
+	if want.Err != nil {
+		return "" // the snippet is no PQL expression: nothing to compare with
+	}
+	eval := func(sql string) (prim.Value, string) {
+		st, err := sqlx.ParseStatement(sql, sqlx.ClickHouse)
+		if err != nil {
+			return nil, fmt.Sprintf("emitted SQL is not valid: %v", err)
+		}
+		x, why := extractSQLExpr("project", st)
+		if why != "" {
+			return nil, why
+		}
+		v, err := sqlx.EvalScalarFn(x, func(parts []string) (prim.Value, bool) { return int64(7), true }, nil)
+		if err != nil {
+			return nil, "cannot be evaluated: " + err.Error()
+		}
+		return v, ""
+	}
+	got, m1 := eval(r.SQL)
+	if m1 != "" {
+		return m1 + "\nsql: " + r.SQL
+	}
+	exp, m2 := eval(want.SQL)
+	if m2 != "" {
+		return ""
+	}
+	if !prim.Equal(got, exp) {
+		return fmt.Sprintf("the parameter does not act as one operand: with p = %s the expression %s has the value %s, written out as (%s) it has %s\nsql: %s\nsql written out: %s", c.Snippet, c.Use, prim.Show(got), c.Snippet, prim.Show(exp), r.SQL, want.SQL)
+	}
+	return ""
+}
+
+func init() {
+	replayers["signedparam"] = jsonReplayer(checkSignedParam)
+}
+
+// TestC06SignedParams: sign-led and compound snippets in every operand position.
+func TestC06SignedParams(t *testing.T) {
+	st := harn.NewStats(env, "signedparams")
+	defer st.Flush()
+	// sign-led snippets only: a compound snippet such as `1 + 2` is inserted
+	// verbatim and it is the caller's business to parenthesise it
+	snippets := [][2]string{{"-5", ""}, {"+3", ""}, {"- 2", ""}, {"-(1 + 2)", ""}, {"- -4", ""}, {"-\"a\"", "-a"}, {"+\"a\"", "+a"}, {"-16", "-0x10"}, {"-(\"a\")", "-(a)"}}
+	uses := []string{"p[1]", "-p", "+p", "10 - p", "p - 10", "p * 2", "2 * p", "-p[1]", "p == -5", "f(p)[1]", "p in (p, 1)", "iff(true, p, 0) - p", "strcat('a', p)", "not(p == 1)", "(p)[1]", "p % 3", "10 / p"}
+	st.SetExhaustive(fmt.Sprintf("every parameter snippet of %q in every use of %q, compared by value with the use written out with the snippet in parentheses", snippets, uses))
+	i := 0
+	for _, sn := range snippets {
+		for _, u := range uses {
+			i++
+			if i%env.NShards != env.Shard {
+				continue
+			}
+			c := signedParamCase{Snippet: sn[0], PQL: sn[1], Use: u}
+			st.Eval()
+			st.NonTrivialExact(1)
+			if msg := checkSignedParam(c); msg != "" {
+				st.Violation(t, "C06", "signedparam", c, "p = %s in %s: %s", sn[0], u, msg)
+				return
+			}
+		}
+	}
 }
 
 type manyUsesCase struct {
